@@ -392,6 +392,14 @@ func c06Specials(c *Case) {
 		Bin("*", V("x"), Meth(N("7"), "floor")), Bin("+", Bin("*", V("x"), Meth(N("2.5"), "round")), N("1")), Bin("*", Meth(N("2.5"), "round"), Meth(N("3.5"), "floor")),
 		Bin("*", V("x"), Mem(V("o"), "k")), Bin("/", V("x"), Idx(V("a"), N("1"))), Bin("%", V("z"), CallE(V("f"), N("2"))), Bin("*", V("x"), Meth(S("abc"), "length")), Bin("*", N("2"), Meth(Arr(N("1"), N("2")), "length")),
 		Bin("<", V("x"), Meth(N("2.5"), "round")), Bin("==", V("x"), Meth(N("4.4"), "floor")), Bin("&&", V("p"), Meth(N("0.4"), "round")),
+		// a member / element / call on the left of an operator, written with and without spaces (see below)
+		Bin("-", Mem(V("o"), "k"), V("x")), Bin("-", Mem(V("o"), "k"), Bin("*", V("x"), V("y"))), Bin("-", Bin("*", V("y"), Mem(V("o"), "k")), V("x")), Bin("+", Mem(Idx(Mem(V("oo"), "a"), N("0")), "b"), V("x")),
+		Bin("-", Idx(V("a"), N("1")), V("x")), Bin("<", Mem(V("o"), "k"), V("x")), Bin("-", Mem(V("o"), "k"), Mem(V("o"), "k")), Bin("/", Meth(V("s"), "length"), V("y")),
+		// long subscripts and argument lists (more tokens between the brackets than any small look-behind holds)
+		Bin("+", Idx(V("a"), Bin("%", &Paren{X: Bin("-", Bin("+", Bin("*", &Paren{X: Bin("+", V("x"), N("1"))}, N("2")), V("y")), &Unary{Op: "-", X: V("x")})}, N("2"))), N("1")),
+		Bin("-", Idx(V("a"), Bin("%", &Paren{X: Bin("+", Bin("+", Bin("+", Bin("+", Bin("+", Bin("+", Bin("+", V("x"), V("y")), V("z")), V("w")), V("x")), V("y")), V("z")), V("w"))}, N("2"))), N("1")),
+		Bin("*", CallE(V("f"), Bin("+", Bin("+", Bin("+", Bin("+", Bin("+", Bin("+", Bin("+", Bin("+", V("x"), V("y")), V("z")), V("w")), V("x")), V("y")), V("z")), V("w")), N("1"))), N("2")),
+		Bin("+", Idx(Idx(Mem(V("oo"), "a"), Bin("*", &Paren{X: Bin("-", Bin("-", Bin("-", Bin("-", Bin("-", Bin("-", V("x"), V("x")), V("y")), V("y")), V("z")), V("z")), V("w"))}, N("0"))), S("b")), N("1")),
 		&IsExpr{X: &Unary{Op: "!", X: V("x")}, T: "string"}, &IsExpr{X: &Unary{Op: "!", X: V("x")}, T: "bool"}, &IsExpr{X: &Unary{Op: "!", X: V("s")}, T: "string"}, &IsExpr{X: &Unary{Op: "!", X: V("p")}, T: "number"},
 		&IsExpr{X: Bin("+", N("2"), &Unary{Op: "!", X: V("x")}), T: "string"}, &IsExpr{X: &Unary{Op: "-", X: V("x")}, T: "number"}, &IsExpr{X: &Unary{Op: "-", X: V("s")}, T: "string"},
 		Bin("==", &IsExpr{X: &Unary{Op: "!", X: V("x")}, T: "bool"}, V("p")), Bin("&&", &IsExpr{X: &Unary{Op: "!", X: V("s")}, T: "bool"}, V("q")),
@@ -418,6 +426,15 @@ func c06Specials(c *Case) {
 		c.NonTrivial("special:" + s.text)
 		c.Count("special_forms")
 		m2(c, &M2Case{Prog: p, Budget: 20000, Desc: "special form `" + s.text + "`"})
+		// the same tokens written without any space that the token table does not require
+		rd := RenderProgram(p, ParenMinimal, nil)
+		if !rd.LeadBad {
+			glued, n := glueLayout(rd, nil, true)
+			if n > 0 {
+				c.Count("special_forms_without_spaces")
+				m2(c, &M2Case{Prog: p, Text: glued, Budget: 20000, Desc: "special form `" + s.text + "` written without spaces"})
+			}
+		}
 	}
 	// runs of one operator with 4 and 5 operands (left to right also beyond three operands)
 	for _, op := range c06Bin {
